@@ -288,6 +288,20 @@ func c04Reconnect() func() {
 		if readFirst {
 			read()
 		}
+		// the gateway may send the first telegram of the new connection right behind its connect
+		// response (it has one waiting): it is request number 0 of that connection like any other
+		eager := mc.Choose(2, mc.Free) == 1
+		sentEager := false
+		gw.OnConnReq = func(req *knxnet.ConnReq, s *fakesock.Sent) {
+			gw.Channel = next
+			sock.Deliver(&knxnet.ConnRes{Channel: next, Status: 0, Control: knxnet.HostInfo{Protocol: knxnet.UDP4}})
+			if eager && !sentEager {
+				sentEager = true
+				mc.Log(Inj{next, 0, id})
+				sock.Deliver(&knxnet.TunnelReq{Channel: next, SeqNumber: 0, Payload: Msg(id)})
+				id++
+			}
+		}
 		// the connection ends; the client reconnects and gets the next channel
 		if cause == 0 {
 			mc.Log(Note("disconnect request"))
@@ -299,8 +313,13 @@ func c04Reconnect() func() {
 		}
 		ch = next
 		mc.Log(Note("epoch 2"))
-		inject(0)
-		inject(1)
+		if sentEager {
+			inject(1)
+			inject(2)
+		} else {
+			inject(0)
+			inject(1)
+		}
 		mc.Sleep(1 * ms)
 		for read() {
 		}
